@@ -70,7 +70,10 @@ fn rust_wrappers(c: &mut Case, it: &dfam::DItem, stream_ref: &[u8]) -> Result<()
         if d.total_in() as usize != input.len() || d.total_out() as usize != produced.len() {
             return Err(format!("Deflate totals {} / {} but {} consumed / {} produced", d.total_in(), d.total_out(), input.len(), produced.len()));
         }
-        let _ = stream_ref;
+        // the wrapper and the C API are two doors to one encoder: the same single Finish call gives the same bytes
+        if in_chunk == usize::MAX && calls == 1 && produced != stream_ref {
+            return Err(format!("Deflate::compress(all input, Finish) in one call wrote {} bytes, the C API's one deflate(Z_FINISH) call {} bytes, first difference at {:?}", produced.len(), stream_ref.len(), produced.iter().zip(stream_ref).position(|(a, b)| a != b)));
+        }
         // and back, with trailing garbage
         let mut z = produced.clone();
         z.extend_from_slice(&[0x55, 0xaa]);
